@@ -53,7 +53,7 @@ FamA ==
 
 (* ---- family P: process orders permuted (allocation / ingest processes) -- *)
 FamP ==
-    {[c EXCEPT !.perm = {"AT", "PI", "AI", "TP"}] :
+    {[c EXCEPT !.perm = {"AT", "AI", "PI", "ST"}] :
         c \in {c \in FamA : c.obs["a"].dur = 1 /\ c.obs["b"].dur = 1 /\ c.maxIngest = 2}}
 
 (* ---- family W: one observation, workflow shapes, delays, all policies --- *)
